@@ -5,9 +5,9 @@ from vlib import extract_play
 LEVEL = "proof"
 MANIFEST = dict(
     category="proof",
-    text="Contracts on the real OPNMIDIplay::realTime_Controller, PatchChange, PitchBend (both), BankChangeLSB/MSB/BankChange, ChannelAfterTouch, NoteOff (extracted on every run), with NO precondition on the uint8/uint16 arguments: every index into the channel table is inside the table, callees receive a valid channel index, and the table invariant (volume, expression, brightness, program of every channel <= 127 - what touchNote and the instrument lookup require) is preserved; by induction over call histories. OPN2::noteOn/touchNote safety: C02/C11; SysEx: C19.",
+    text="Contracts on the real OPNMIDIplay::realTime_Controller, PatchChange, PitchBend (both), BankChangeLSB/MSB/BankChange, ChannelAfterTouch, NoteOff, NoteAfterTouch and the argument-handling range of realTime_NoteOn (extracted on every run), with NO precondition on the uint8/uint16 arguments: every index into the channel table is inside the table, callees receive a valid channel index, and the table invariant (volume, expression, brightness, program of every channel <= 127 - what touchNote and the instrument lookup require) is preserved; by induction over call histories. OPN2::noteOn/touchNote safety: C02/C11; SysEx: C19.",
     design_ref="DESIGN.md C03",
-    level_note="Scope: argument validation and table indexing only. realTime_NoteAfterTouch is covered with the list lookup as an assumed contract. Not covered: realTime_NoteOn (intrusive list iterators and the allocation logic, not extracted), the C API wrappers, containers, emulator cores, the sequencer, audio generation. Callees (noteUpdateAll, updatePortamento, setRPN, noteOff, killSustainingNotes, markSostenutoNotes, MIDIchannel::resetAllControllers121) are assumed contracts that require a valid channel index and are assumed not to modify the four range-constrained fields. Table size fixed to 16 channels.",
+    level_note="Scope: argument validation and table indexing only. realTime_NoteAfterTouch is covered with the list lookup as an assumed contract. realTime_NoteOn: its argument-handling range (channel fold, key clamp, note-off first; shared with C12) is covered, its allocation part is not, the C API wrappers, containers, emulator cores, the sequencer, audio generation. Callees (noteUpdateAll, updatePortamento, setRPN, noteOff, killSustainingNotes, markSostenutoNotes, MIDIchannel::resetAllControllers121) are assumed contracts that require a valid channel index and are assumed not to modify the four range-constrained fields. Table size fixed to 16 channels.",
     technique="CBMC code contracts (DFCC) on mechanically extracted C++ member functions; inductive table invariant")
 TRUSTED = ["extraction rules of vlib/cxx2c.py", "harness/env_play.h", "assumed callee contracts listed in contracts/rt_contracts.h"]
 ASSUMPTIONS = ["channel table has 16 entries (one MIDI port)"]
@@ -36,9 +36,17 @@ def _extract(wd):
 
 def groups(tier):
     gs = []
-    REPL = ["noteUpdateAll", "updatePortamento", "setRPN", "noteOff", "killSustainingNotes", "markSostenutoNotes", "MIDIchannel_resetAllControllers121", "MIDIchannel_find_activenote"]
+    REPL = ["noteUpdateAll", "updatePortamento", "setRPN", "noteOff", "killSustainingNotes", "markSostenutoNotes", "MIDIchannel_resetAllControllers121"]
+    CK = ["--bounds-check", "--pointer-check", "--div-by-zero-check", "--signed-overflow-check", "--undefined-shift-check", "--no-malloc-may-fail"]
     for n, kw in FUNCS:
         c = kw.get("rename", n)
+        if n == "realTime_NoteAfterTouch":
+            gs.append(Group("rt_" + c, "harness/rt_h.c", "h_" + c, enforce=c, replace=[r for r in REPL], extract=_extract, object_bits=9, checks=CK,
+                            unwindset="realTime_NoteAfterTouch.0:130,spec_chan_same_but_aftertouch.0:130,spec_MIDIchannel_eq.0:130", required=[r"postcondition", r"assigns"],
+                            funcs=["OPNMIDIplay::" + n], timeout=600, note="addressed channel = one-element window; pointer-arithmetic range check off"))
+            continue
         gs.append(Group("rt_" + c, "harness/rt_h.c", "h_" + c, enforce=c, replace=REPL, extract=_extract, object_bits=9,
-                        unwindset="spec_inv_ranges.0:17,realTime_NoteAfterTouch.0:130,spec_table_same_but_aftertouch.0:130,spec_table_same_but_aftertouch.1:130,spec_MIDIchannel_eq.0:130", required=[r"postcondition", r"assigns"], funcs=["OPNMIDIplay::" + n], timeout=600))
+                        unwindset="spec_inv_ranges.0:17,realTime_NoteAfterTouch.0:130,spec_chan_same_but_aftertouch.0:130,spec_MIDIchannel_eq.0:130", required=[r"postcondition", r"assigns"], funcs=["OPNMIDIplay::" + n], timeout=600))
+    from vlib.props import C12
+    gs.append([g for g in C12.groups(tier) if g.name == "noteon_args_contract"][0])   # argument handling of realTime_NoteOn (shared with C12)
     return gs
